@@ -271,6 +271,23 @@ func (i *IGMPv1or2) DecodeFromBytes(data []byte, df gopacket.DecodeFeedback) err
 	i.MaxResponseTime = igmpTimeDecode(data[1])
 	i.Checksum = binary.BigEndian.Uint16(data[2:4])
 	i.GroupAddress = net.IP(data[4:8])
+	i.BaseLayer = BaseLayer{Contents: data[:8], Payload: data[8:]}
+
+	// the protocol version, by the same rules as decodeIGMP
+	switch i.Type {
+	case IGMPMembershipQuery:
+		if data[1] == 0x00 {
+			i.Version = 1 // an IGMPv1 query has MaxResp = 0
+		} else {
+			i.Version = 2
+		}
+	case IGMPMembershipReportV1:
+		i.Version = 1
+	case IGMPLeaveGroup, IGMPMembershipReportV2:
+		i.Version = 2
+	default:
+		i.Version = 0
+	}
 
 	return nil
 }
